@@ -400,6 +400,8 @@ def c17(tier, seed):
         others = load_histories(run, sorted(n for n in names if 'focus' not in n))
         run.notes['histories_generated_by_tlc'] = len(focus) + len(others)
         budget = (600, 600) if q else (4000, 4000)
+        if os.environ.get('VERIF_C17_BUDGET'):      # development only
+            budget = tuple(int(x) for x in os.environ['VERIF_C17_BUDGET'].split(','))
         sel_f = [concretise(c, rng, tier) for c in select(focus, rng, budget[0])]
         sel_o = [concretise(c, rng, tier) for c in select(others, rng, budget[1])]
         sweeps = sweep_cases(focus, rng, tier)
